@@ -523,10 +523,12 @@ type loopInfo struct {
 	heapWrite bool     // some write to the heap
 	heapAll   bool     // a write whose target arrays are not known statically
 	prefixes  []string // heap key prefixes written through typed pointers / maps
+	ghostAll  bool            // some call in the loop may write any observable ghost state
+	ghosts    map[string]bool // the ghosts the loop body may write
 }
 
 func (x *Exec) analyseLoop(fr *Frame, nodes ...ast.Node) loopInfo {
-	li := loopInfo{modified: map[types.Object]bool{}}
+	li := loopInfo{modified: map[types.Object]bool{}, ghosts: map[string]bool{}}
 	info := fr.pkg.TypesInfo
 	mark := func(e ast.Expr) {
 		switch t := ast.Unparen(e).(type) {
@@ -608,6 +610,13 @@ func (x *Exec) analyseLoop(fr *Frame, nodes ...ast.Node) loopInfo {
 			case *ast.AssignStmt:
 				for _, l := range s.Lhs {
 					mark(l)
+					if ix, ok := ast.Unparen(l).(*ast.IndexExpr); ok && len(x.sumRules) > 0 {
+						if tv := info.TypeOf(ix.X); tv != nil {
+							if _, isMap := x.resolveType(tv).Underlying().(*types.Map); isMap {
+								li.ghosts["mapsum"] = true // a map write moves the ghost sum
+							}
+						}
+					}
 				}
 			case *ast.IncDecStmt:
 				mark(s.X)
@@ -626,6 +635,13 @@ func (x *Exec) analyseLoop(fr *Frame, nodes ...ast.Node) loopInfo {
 				if x.callMayWriteHeap(fr, s) {
 					li.heapWrite = true
 					li.heapAll = true
+				}
+				all, names := x.callWritesGhost(fr, s)
+				if all {
+					li.ghostAll = true
+				}
+				for _, n := range names {
+					li.ghosts[n] = true
 				}
 				// pointer-receiver method calls on locals modify them
 				if se, ok := s.Fun.(*ast.SelectorExpr); ok {
@@ -651,7 +667,32 @@ func (x *Exec) analyseLoop(fr *Frame, nodes ...ast.Node) loopInfo {
 	return li
 }
 
+// loopGhosts: ghost arrays that are havocked at the head of a loop whose body may write ghost state.
+var loopGhosts = []string{"httpstatus", "httpwrites", "respbody", "httperrs", "callcount", "gocount", "golastarg", "mapsum",
+	"fsinode", "isize", "icontent", "handleinode", "jexp", "connreader", "tickerival", "buflen", "bufcontent"}
+
 func (x *Exec) havocForLoop(fr *Frame, st *State, li loopInfo) {
+	if li.ghostAll || len(li.ghosts) > 0 {
+		// earlier iterations may have written these ghosts: what the body needs about them
+		// is stated in the loop invariants
+		want := func(g string) bool { return li.ghostAll || li.ghosts[g] || (li.ghosts["upstream"] && strings.HasPrefix(g, "up")) }
+		for _, g := range ghostInts {
+			if _, ok := st.ghost[g]; ok && want(g) {
+				st.ghost[g] = IntV{Var(x.fresh("Gl_"+g), SInt)}
+			}
+		}
+		for _, g := range loopGhosts {
+			if !want(g) {
+				continue
+			}
+			if o, ok := st.ghost[g].(OpaqueV); ok && o.T != nil {
+				st.ghost[g] = OpaqueV{T: Var(x.fresh("Gl_"+g), o.T.Sort)}
+			} else if _, ok := st.ghost[g]; !ok {
+				// not materialised yet: its initial name must not be reused after the loop head
+				st.ghost[g] = OpaqueV{T: Var(x.fresh("Gl_"+g), ArrOf(SInt))}
+			}
+		}
+	}
 	for obj := range li.modified {
 		if _, ok := st.vars[obj]; ok {
 			st.vars[obj] = x.freshValue(st, x.resolveType(obj.Type()), obj.Name())
@@ -1115,4 +1156,139 @@ func (x *Exec) unrollRange(fr *Frame, s *ast.RangeStmt, sv SliceV, st *State, k 
 		x.stmt(fr, s.Body, st, next)
 	}
 	iter(0, st)
+}
+
+// callWritesGhost: which observable ghosts may this call (or what it calls) write?
+// all == true: any of them.
+func (x *Exec) callWritesGhost(fr *Frame, c *ast.CallExpr) (all bool, names []string) {
+	info := fr.pkg.TypesInfo
+	if tv, ok := info.Types[c.Fun]; ok && tv.IsType() {
+		return false, nil
+	}
+	fromAssigns := func(as []string) []string {
+		var out []string
+		for _, a := range as {
+			if strings.HasPrefix(a, "ghost:") {
+				out = append(out, strings.TrimPrefix(a, "ghost:"))
+			}
+		}
+		return out
+	}
+	var fn *types.Func
+	iface := false
+	switch f := ast.Unparen(c.Fun).(type) {
+	case *ast.Ident:
+		if b, ok := info.Uses[f].(*types.Builtin); ok {
+			if b.Name() == "delete" && len(x.sumRules) > 0 {
+				return false, []string{"mapsum"}
+			}
+			return false, nil
+		}
+		fn, _ = info.Uses[f].(*types.Func)
+	case *ast.SelectorExpr:
+		if sel, ok := info.Selections[f]; ok {
+			if sel.Kind() == types.FieldVal {
+				// function-typed field: its fnfield contract, if any
+				for _, fc := range x.C.FnFields {
+					parts := strings.SplitN(fc.Name, ".", 2)
+					if len(parts) == 2 && parts[1] == f.Sel.Name {
+						if fc.Pure {
+							return false, nil
+						}
+						if len(fc.Assigns) == 0 {
+							return true, nil
+						}
+						return false, fromAssigns(fc.Assigns)
+					}
+				}
+				return true, nil
+			}
+			fn, _ = sel.Obj().(*types.Func)
+			if _, isI := sel.Recv().Underlying().(*types.Interface); isI {
+				iface = true
+			}
+		} else {
+			fn, _ = info.Uses[f.Sel].(*types.Func)
+		}
+	case *ast.IndexExpr:
+		if id, ok := f.X.(*ast.Ident); ok {
+			fn, _ = info.Uses[id].(*types.Func)
+		}
+		if se, ok := f.X.(*ast.SelectorExpr); ok {
+			fn, _ = info.Uses[se.Sel].(*types.Func)
+		}
+	case *ast.IndexListExpr:
+		if id, ok := f.X.(*ast.Ident); ok {
+			fn, _ = info.Uses[id].(*types.Func)
+		}
+		if se, ok := f.X.(*ast.SelectorExpr); ok {
+			fn, _ = info.Uses[se.Sel].(*types.Func)
+		}
+	}
+	if fn == nil {
+		// a function value: counted; a callback parameter with a declared frame writes no ghost
+		return false, []string{"callcount"}
+	}
+	name := funcFullName(fn)
+	if strings.HasPrefix(name, "log/slog.") || strings.HasPrefix(name, "fmt.") || strings.HasPrefix(name, "reservoir/metrics.") {
+		return false, nil
+	}
+	if fc := x.C.Funcs[name]; fc != nil && !fc.Inline {
+		if fc.Pure {
+			return false, nil
+		}
+		if len(fc.Assigns) == 0 {
+			return true, nil
+		}
+		return false, fromAssigns(fc.Assigns)
+	}
+	if _, ok := models[name]; ok {
+		for p, gs := range map[string][]string{
+			"reservoir/proxy/responder.Responder.": {"httpstatus", "httpwrites", "respbody", "httperrs"},
+			"net/http.ResponseWriter.":             {"httpstatus", "httpwrites"},
+			"net/http.Error":                       {"httpstatus", "httpwrites"},
+			"net/http.Client.Do":                   {"upstream"},
+			"net/http.ReadRequest":                 {"connreader"},
+			"crypto/tls.Server":                    {"connreader"},
+			"os.":                                  {"fsinode", "isize", "icontent", "handleinode"},
+			"io.Copy":                              {"isize", "icontent"},
+			"golang.org/x/sync/singleflight.":      {"sfleader", "sfshared", "sferrs"},
+			"time.NewTicker":                       {"tickerival"},
+			"time.Ticker.":                         {"tickerival"},
+			"bytes.Buffer.":                        {"buflen", "bufcontent"},
+			"net/http.ServeMux.":                   {"callcount"},
+		} {
+			if strings.HasPrefix(name, p) {
+				return false, gs
+			}
+		}
+		return false, nil
+	}
+	if strings.HasPrefix(name, "sync.") {
+		if strings.Contains(name, "Lock") {
+			return false, []string{"jexp"} // acquiring a shard lock forgets jexp
+		}
+		return false, nil
+	}
+	if pureExternal(name) {
+		return false, nil
+	}
+	if decl, pkg := x.L.funcDecl(fn); decl != nil && decl.Body != nil && pkg != nil && inModule(pkg.PkgPath) {
+		if x.mayWriteDepth > 4 {
+			return true, nil
+		}
+		x.mayWriteDepth++
+		defer func() { x.mayWriteDepth-- }()
+		sub := &Frame{pkg: pkg}
+		li := x.analyseLoop(sub, decl.Body)
+		var out []string
+		for g := range li.ghosts {
+			out = append(out, g)
+		}
+		return li.ghostAll, out
+	}
+	if iface {
+		return false, []string{"callcount"}
+	}
+	return false, nil
 }
